@@ -37,7 +37,7 @@ inductive Loc where
 
 structure State where
   holdings : List (Loc × Buf)
-  deriving Repr
+  deriving Repr, DecidableEq
 
 /-- all `n` buffers start in the pool (`initPacketPool`) -/
 def init (n : Nat) : State := ⟨(List.range n).map fun b => (Loc.pool, b)⟩
